@@ -324,6 +324,8 @@ pub struct HistExec {
     pub step_no: usize,
     pub needs_recovery: bool,
     pub has_project: bool,
+    /// relative paths of every source file any version of this history had
+    pub ever_sources: BTreeSet<String>,
     /// profile of the most recent fault-free step of the current version
     pub last_counters: BTreeMap<String, u32>,
     pub last_calls: u64,
@@ -411,6 +413,7 @@ impl HistExec {
             step_no: 0,
             needs_recovery: false,
             has_project: false,
+            ever_sources: BTreeSet::new(),
             last_counters: BTreeMap::new(),
             last_calls: 0,
             last_log: vec![],
@@ -459,6 +462,9 @@ impl HistExec {
                     write_file(&src, &f.path, f.text.as_bytes());
                 }
                 self.has_project = true;
+                for f in files {
+                    self.ever_sources.insert(f.path.clone());
+                }
                 self.version = Version { files: files.clone(), bystanders: bystanders.clone(), faulty: faulty.clone(), note: note.clone() };
                 self.last_counters.clear();
                 self.last_calls = 0;
@@ -932,17 +938,38 @@ impl HistExec {
                 }
             }
         }
-        // Deletions: removing a stale, non-mirrored `.py` inside the output directory (and a
-        // directory that thereby becomes empty) is tolerated — "exactly one .py per .mamba" can
-        // be read as cleaning the outputs of deleted sources.  Anything else that disappears
-        // (somebody's notes.txt, a source file, a bystander) is an effect the property excludes.
+        // Deletions: removing the stale output of a source that an earlier version of the
+        // project had and the current one has not (deleted or renamed), and a directory that
+        // thereby becomes empty, is tolerated — "exactly one .py per .mamba" can be read as
+        // cleaning up after deleted sources.  Anything else that disappears is an effect the
+        // property excludes: somebody's notes.txt, a hand-written or copied .py, a bystander, a
+        // source file, and in particular the output that ANOTHER configuration (directory
+        // input vs. single-file input) wrote for a source that still exists.
+        let stale_of_deleted: BTreeSet<String> = {
+            let current: BTreeSet<&String> = self.version.files.iter().map(|f| &f.path).collect();
+            let mut set = BTreeSet::new();
+            for rel in self.ever_sources.iter().filter(|r| !current.contains(r)) {
+                let as_dir = PathBuf::from(rel).with_extension("py").to_string_lossy().into_owned();
+                let as_file = PathBuf::from(Path::new(rel).file_name().unwrap_or_default()).with_extension("py").to_string_lossy().into_owned();
+                set.insert(format!("{out_rel}/{as_dir}"));
+                set.insert(format!("{out_rel}/{as_file}"));
+            }
+            // but never what a current source maps to under either kind of input
+            for rel in current {
+                let as_dir = PathBuf::from(rel).with_extension("py").to_string_lossy().into_owned();
+                let as_file = PathBuf::from(Path::new(rel).file_name().unwrap_or_default()).with_extension("py").to_string_lossy().into_owned();
+                set.remove(&format!("{out_rel}/{as_dir}"));
+                set.remove(&format!("{out_rel}/{as_file}"));
+            }
+            set
+        };
         for (p, n) in before.iter() {
             if !after.contains_key(p) {
                 let in_target = p.starts_with(&format!("{out_rel}/"));
-                let stale_py = in_target && !n.dir && p.ends_with(".py");
+                let stale_py = in_target && !n.dir && stale_of_deleted.contains(p);
                 let emptied_dir = in_target
                     && n.dir
-                    && before.iter().filter(|(q, _)| q.starts_with(&format!("{p}/"))).all(|(q, m)| m.dir || q.ends_with(".py"));
+                    && before.iter().filter(|(q, _)| q.starts_with(&format!("{p}/"))).all(|(q, m)| m.dir || stale_of_deleted.contains(q));
                 if stale_py || emptied_dir {
                     self.stats.deleted_in_target_tolerated += 1;
                 } else {
